@@ -135,6 +135,13 @@ struct Run {
     pending_calls: Vec<u32>,
     pending_waits: Vec<u32>,
     held: std::collections::HashMap<usize, Vec<u32>>,
+    /// a segment with `spawnchild:c` was supplied to this actor and has not executed yet: slot `c` is
+    /// reserved, nobody else may spawn meanwhile
+    reserved: Option<(usize, usize)>,
+    /// feature `monitors`: (monitor, monitored) pairs registered by the harness; actors whose
+    /// `post_start` returned ok
+    mon_pairs: Vec<(usize, usize)>,
+    past_start: std::collections::HashSet<usize>,
 }
 
 impl Run {
@@ -148,7 +155,12 @@ impl Run {
         match op {
             Op::Case(_) => true,
             Op::Spawn(a, sup, _) | Op::SpawnInstant(a, sup, _) => {
-                *a == n && sup.is_none_or(|p| p < n && self.w.me(p).is_some())
+                self.reserved.is_none() && *a == n && sup.is_none_or(|p| p < n && self.w.me(p).is_some())
+            }
+            Op::Resume(a, seg) if seg.fx.iter().any(|x| matches!(x, Fx::SpawnChild(_))) => {
+                let cs: Vec<usize> = seg.fx.iter().filter_map(|x| if let Fx::SpawnChild(c) = x { Some(*c) } else { None }).collect();
+                *a < n && self.reserved.is_none() && cs.len() == 1 && cs[0] == n && self.w.me(*a).is_some()
+                    && self.w.actors[*a].open.is_some() && !self.w.actors[*a].seg_pending
             }
             Op::Unlink(a, p) => *a < n && *p < n && a != p && self.w.me(*p).is_some(),
             Op::Monitor(m, a, _) => {
@@ -173,6 +185,10 @@ impl Run {
             Op::Case(id) => {
                 self.w.cleanup().await;
                 self.w.eng.reset();
+                self.w.sync_shared();
+                self.reserved = None;
+                self.mon_pairs.clear();
+                self.past_start.clear();
                 *self.w.sh.tag.lock().unwrap() = format!("c{id}-");
                 self.ctr = 0;
                 self.pending_calls.clear();
@@ -205,6 +221,10 @@ impl Run {
             Op::Monitor(m, a, on) => {
                 self.stats.bump(&format!("op.{}@{}", if *on { "monitor" } else { "unmonitor" }, open_of(&self.w, *a)));
                 self.w.monitor(*m, *a, *on);
+                self.mon_pairs.retain(|p| *p != (*m, *a));
+                if *on {
+                    self.mon_pairs.push((*m, *a));
+                }
             }
             Op::Wait(w, a) => {
                 self.stats.bump("op.wait");
@@ -266,7 +286,11 @@ impl Run {
                         Fx::Reply(..) => "fx.reply",
                         Fx::Forget(_) => "fx.forget",
                         Fx::Join(_) => "fx.join",
+                        Fx::SpawnChild(_) => "fx.spawnchild",
                     });
+                    if let Fx::SpawnChild(c) = x {
+                        self.reserved = Some((*a, *c));
+                    }
                 }
                 self.w.resume(*a, seg.clone());
             }
@@ -288,6 +312,12 @@ impl Run {
             }
         }
         let obs = self.w.collect();
+        // the reservation ends when the child was born or the segment can no longer execute
+        if let Some((a, c)) = self.reserved {
+            if self.w.actors.len() > c || !self.w.actors[a].seg_pending {
+                self.reserved = None;
+            }
+        }
         for part in obs.split(" | ").next().unwrap_or("").split("; ") {
             let w: Vec<&str> = part.split(' ').collect();
             match w.as_slice() {
@@ -346,7 +376,40 @@ impl Run {
             Op::Spawn(..) | Op::SpawnInstant(..) if self.w.local.is_some() => format!("{op} kind=local"),
             _ => op.to_string(),
         };
+        for part in obs.split(" | ").next().unwrap_or("").split("; ") {
+            let w: Vec<&str> = part.split(' ').collect();
+            if let ["exit", a, "post_start", "ok"] = w.as_slice() {
+                if let Ok(a) = a.parse::<usize>() {
+                    self.past_start.insert(a);
+                }
+            }
+        }
         self.log.rec(line, obs);
+        // Bound of the tie (feature `monitors`): the code drops a dead monitor inside `notify_supervisor`,
+        // the model after the step — they differ only when one poll makes two fan-outs (`ActorStarted` and
+        // the terminal event) to a monitor that is already dead. So a monitor that dies before the monitored
+        // actor has reported `ActorStarted` is un-monitored at once (as recorded ops).
+        if self.w.monitors_enabled() && !matches!(op, Op::Case(_)) {
+            let dead: Vec<(usize, usize)> = self
+                .mon_pairs
+                .iter()
+                .copied()
+                .filter(|(m, a)| {
+                    *m < self.w.actors.len()
+                        && *a < self.w.actors.len()
+                        && !self.alive(*m)
+                        && self.alive(*a)
+                        && !self.past_start.contains(a)
+                })
+                .collect();
+            for (m, a) in dead {
+                self.stats.bump("op.unmonitor.auto-dead-monitor");
+                self.w.monitor(m, a, false);
+                self.mon_pairs.retain(|p| *p != (m, a));
+                let obs = self.w.collect();
+                self.log.rec(Op::Monitor(m, a, false).to_string(), obs);
+            }
+        }
     }
 
     fn alive(&self, a: usize) -> bool {
@@ -414,6 +477,9 @@ impl Run {
         if rng.chance(20, 100) {
             let m = self.fresh();
             fx.push(Fx::SendSelf(m));
+        }
+        if self.reserved.is_none() && self.w.actors.len() < 6 && self.w.me(a).is_some() && rng.chance(7, 100) {
+            fx.push(Fx::SpawnChild(self.w.actors.len()));
         }
         if rng.chance(2 * wild, 100) {
             fx.push(Fx::StopSelf(if rng.chance(1, 2) { Some(format!("r{}", self.fresh())) } else { None }));
@@ -895,6 +961,72 @@ impl Run {
         id
     }
 
+    /// Children spawned from INSIDE a callback (`spawn_linked_instant(.., myself)`): callback x how the
+    /// segment ends x what happens next (the child starts first, the parent finishes first, the parent is
+    /// killed, the child's start is aborted).
+    async fn spawnchild_sweep(&mut self, id0: u64) -> u64 {
+        let ok = || Seg { fx: vec![], term: Term::Ok };
+        let mut id = id0;
+        for phase in ["pre", "post_start", "handle", "post_stop"] {
+            for term in ["ok", "err", "panic", "tick"] {
+                for after in ["childfirst", "parentfirst", "killparent", "dropchild"] {
+                    self.exec(Op::Case(id)).await;
+                    id += 1;
+                    self.stats.bump("spawnchildsweep.cases");
+                    let mut pre: Vec<Op> = vec![
+                        Op::Spawn(0, None, None),
+                        Op::Resume(0, ok()),
+                        Op::PollSpawn(0),
+                        Op::Spawn(1, Some(0), None),
+                    ];
+                    if phase != "pre" {
+                        pre.extend([Op::Resume(1, ok()), Op::PollSpawn(1), Op::Poll(1)]);
+                    }
+                    match phase {
+                        "handle" => pre.extend([Op::Resume(1, ok()), Op::Send(1, 100), Op::Poll(1)]),
+                        "post_stop" => pre.extend([Op::Resume(1, ok()), Op::Poll(1), Op::Stop(1, None), Op::Poll(1)]),
+                        _ => {}
+                    }
+                    for op in pre {
+                        self.exec(op).await;
+                    }
+                    let t = match term {
+                        "ok" => Term::Ok,
+                        "err" => Term::Err(7),
+                        "panic" => Term::Panic(8),
+                        _ => Term::Tick,
+                    };
+                    let pollop = if phase == "pre" { Op::PollSpawn(1) } else { Op::Poll(1) };
+                    self.exec(Op::Resume(1, Seg { fx: vec![Fx::SpawnChild(2)], term: t })).await;
+                    self.exec(pollop.clone()).await;
+                    match after {
+                        "childfirst" => {
+                            self.exec(Op::PollSpawn(2)).await;
+                            self.exec(Op::Resume(2, ok())).await;
+                            self.exec(Op::PollSpawn(2)).await;
+                        }
+                        "parentfirst" => {
+                            if term == "tick" {
+                                self.exec(Op::Resume(1, ok())).await;
+                                self.exec(pollop.clone()).await;
+                            }
+                            self.exec(Op::Poll(1)).await;
+                            self.exec(Op::PollSpawn(2)).await;
+                        }
+                        "killparent" => {
+                            self.exec(Op::Kill(1)).await;
+                            self.exec(pollop.clone()).await;
+                            self.exec(Op::PollSpawn(2)).await;
+                        }
+                        _ => self.exec(Op::DropSpawn(2)).await,
+                    }
+                    self.finish_case().await;
+                }
+            }
+        }
+        id
+    }
+
     /// Re-link sweep: a supervised actor (child of 0, with its own child 2, another possible
     /// supervisor 3) is re-linked / unlinked through the public API in every phase, then runs on,
     /// fails, or is killed: every later event must go to the supervisor of that instant.
@@ -1004,6 +1136,9 @@ fn main() {
             pending_calls: Vec::new(),
             pending_waits: Vec::new(),
             held: Default::default(),
+            reserved: None,
+            mon_pairs: Vec::new(),
+            past_start: Default::default(),
         };
         if local == 2 {
             run.w.use_thread_local_adapter();
@@ -1033,6 +1168,7 @@ fn main() {
             id = run.spawn_sweep(id).await;
             id = run.instant_sweep(id).await;
             id = run.relink_sweep(id).await;
+            id = run.spawnchild_sweep(id).await;
             if run.w.monitors_enabled() {
                 id = run.monitor_sweep(id).await;
             }
